@@ -54,13 +54,15 @@ template <class F> NOINSTR static F real(const char* name) { return (F)dlsym(RTL
 extern "C" {
 NOINSTR ssize_t write(int fd, const void* b, size_t n) { if (fd > 2) sched_point('w'); return syscall(SYS_write, fd, b, n); }
 NOINSTR ssize_t writev(int fd, const struct iovec* v, int c) { if (fd > 2) sched_point('v'); return syscall(SYS_writev, fd, v, c); }
-NOINSTR ssize_t read(int fd, void* b, size_t n) { if (fd > 2) sched_point('r'); return syscall(SYS_read, fd, b, n); }
+// calls that hand data back into a buffer owned by the caller get a second point right after they return: the window between
+// "callee filled the buffer" and "caller consumes it" is where a wrongly shared scratch buffer is overwritten by another thread
+NOINSTR ssize_t read(int fd, void* b, size_t n) { if (fd > 2) sched_point('r'); ssize_t r = syscall(SYS_read, fd, b, n); if (fd > 2) sched_point('R'); return r; }
 NOINSTR int rename(const char* a, const char* b) { sched_point('n'); return (int)syscall(SYS_rename, a, b); }
 NOINSTR int close(int fd) { if (fd > 2) sched_point('c'); return (int)syscall(SYS_close, fd); }
-NOINSTR int fstat(int fd, struct stat* st) { sched_point('s'); return (int)syscall(SYS_fstat, fd, st); }
-NOINSTR const char* inet_ntop(int af, const void* src, char* dst, socklen_t size) { sched_point('i'); static auto f = real<const char* (*)(int, const void*, char*, socklen_t)>("inet_ntop"); return f(af, src, dst, size); }
-NOINSTR int deflate(z_streamp s, int flush) { sched_point('d'); static auto f = real<int (*)(z_streamp, int)>("deflate"); return f(s, flush); }
-NOINSTR lzma_ret lzma_code(lzma_stream* s, lzma_action a) { sched_point('l'); static auto f = real<lzma_ret (*)(lzma_stream*, lzma_action)>("lzma_code"); return f(s, a); }
+NOINSTR int fstat(int fd, struct stat* st) { sched_point('s'); int r = (int)syscall(SYS_fstat, fd, st); sched_point('S'); return r; }
+NOINSTR const char* inet_ntop(int af, const void* src, char* dst, socklen_t size) { sched_point('i'); static auto f = real<const char* (*)(int, const void*, char*, socklen_t)>("inet_ntop"); const char* r = f(af, src, dst, size); sched_point('I'); return r; }
+NOINSTR int deflate(z_streamp s, int flush) { sched_point('d'); static auto f = real<int (*)(z_streamp, int)>("deflate"); int r = f(s, flush); sched_point('D'); return r; }
+NOINSTR lzma_ret lzma_code(lzma_stream* s, lzma_action a) { sched_point('l'); static auto f = real<lzma_ret (*)(lzma_stream*, lzma_action)>("lzma_code"); lzma_ret r = f(s, a); sched_point('L'); return r; }
 // level 2 points: every instrumented function boundary of the library
 NOINSTR void __cyg_profile_func_enter(void*, void*) { if (S.level == 2) sched_point('E'); }
 NOINSTR void __cyg_profile_func_exit(void*, void*) { if (S.level == 2) sched_point('X'); }
@@ -78,7 +80,7 @@ static std::string body_export_fd(int slot, int comp) {   // W1..W3: descriptor 
     std::string path = g_dir + "/w" + std::to_string(getpid()) + "_" + std::to_string(slot) + "_" + std::to_string(comp);
     int fd = open(path.c_str(), O_WRONLY | O_CREAT | O_TRUNC, 0600);
     { CdnsExporter e(fp, fd, comp == 0 ? CborOutputCompression::NO_COMPRESSION : comp == 1 ? CborOutputCompression::GZIP : CborOutputCompression::XZ);
-      for (int i = 0; i < 12; i++) { e.buffer_qr(rec_of(P, slot, i)); if (i % 4 == 1) e.buffer_aec(P.aec[i % 3]); if (i % 5 == 2) e.buffer_mm(P.mm[0]); } e.write_block(); }
+      for (int i = 0; i < 8; i++) { e.buffer_qr(rec_of(P, slot, i)); if (i % 4 == 1) e.buffer_aec(P.aec[i % 3]); if (i % 5 == 2) e.buffer_mm(P.mm[0]); } e.write_block(); }
     std::string bytes = slurp(path); std::string d = std::to_string(bytes.size()) + ":" + std::to_string(fnv(bytes));
     if (comp == 0) { std::ifstream f(path, std::ios::binary); d += ":" + std::to_string(fnv(lib::file_dump(lib::read_stream(f)))); }
     return d;
@@ -87,7 +89,7 @@ static std::string body_export_named(int slot, int comp) {  // W4: named sink wi
     Pools P = make_pools(1000); BlockParameters bp; bp.storage_parameters.max_block_items = 3; bp.storage_parameters.ticks_per_second = 1000; std::vector<BlockParameters> bps = {bp}; FilePreamble fp(bps);
     std::string base = g_dir + "/n" + std::to_string(getpid()) + "_" + std::to_string(slot) + "_" + std::to_string(comp) + "_"; std::string d;
     { CdnsExporter e(fp, base + "0", comp == 0 ? CborOutputCompression::NO_COMPRESSION : CborOutputCompression::GZIP);
-      for (int i = 0; i < 12; i++) { e.buffer_qr(rec_of(P, slot + 3, i)); if (i == 3) e.rotate_output(base + "1", true); if (i == 8) e.rotate_output(base + "2", false); } e.write_block(); }
+      for (int i = 0; i < 9; i++) { e.buffer_qr(rec_of(P, slot + 3, i)); if (i == 3) e.rotate_output(base + "1", true); if (i == 6) e.rotate_output(base + "2", false); } e.write_block(); }
     for (int k = 0; k < 3; k++) { std::string b = slurp(base + std::to_string(k) + (comp ? ".gz" : "")); d += std::to_string(b.size()) + ":" + std::to_string(fnv(b)) + ","; }
     return d;
 }
@@ -146,7 +148,7 @@ static bool parse_prefix(const std::string& s, std::vector<int>& bodies, std::ve
 int main(int argc, char** argv) {
     Args a = Args::parse(argc, argv); g_dir = scratch_dir(); Result total; bool T = a.thorough();
     auto done = [&](int rc) { a.finish(total); rm_rf(g_dir); return rc; };
-    { seeds::Opt o; o.sets = {seeds::PS(3, 1000000, 0, true)}; o.blocks = 4; o.per_block = 3; prepared_file = g_dir + "/prepared.cdns"; spit(prepared_file, seeds::make(o)); }
+    { seeds::Opt o; o.sets = {seeds::PS(3, 1000000, 0, true)}; o.blocks = 3; o.per_block = 2; prepared_file = g_dir + "/prepared.cdns"; spit(prepared_file, seeds::make(o)); }
     // sequential reference digests (single thread, no scheduler); slot-dependent content, so compute per (body, slot)
     std::map<std::pair<int, int>, std::string> refd;
     for (int b = 0; b < NBODY; b++) for (int slot = 0; slot < 3; slot++) { std::string d1 = run_body(b, slot), d2 = run_body(b, slot); if (d1 != d2) { fprintf(stderr, "body %s is not deterministic\n", BN[b]); return done(2); } refd[{b, slot}] = d1; }
@@ -224,7 +226,7 @@ int main(int argc, char** argv) {
         // first discover N(A) per pair with the default schedule, then split the index range into chunks
         struct T2 { int a, b; size_t lo, hi; };
         std::vector<T2> t2;
-        for (auto& pr : pairs) { RunOut x = controlled_run({pr.first, pr.second}, {0}, 2); size_t NA = 0; for (auto& p : x.points) if (p.tid == 0 && p.kind != 'F') NA++; size_t step = T ? 1 : 1; (void)step; size_t chunk = 400; for (size_t lo = 0; lo <= NA; lo += chunk) t2.push_back({pr.first, pr.second, lo, std::min(NA + 1, lo + chunk)}); }
+        for (auto& pr : pairs) { RunOut x = controlled_run({pr.first, pr.second}, {0}, 2); size_t NA = 0; for (auto& p : x.points) if (p.tid == 0 && p.kind != 'F') NA++; size_t step = T ? 1 : 1; (void)step; size_t chunk = 400; for (size_t lo = 0; lo < NA; lo += chunk) t2.push_back({pr.first, pr.second, lo, std::min(NA, lo + chunk)}); }   // preempt A at its point #i+1, i in [0, NA)
         size_t stride = T ? 1 : 7;
         Pool pool(a.jobs, 600);
         pool.run(t2.size(), [&](uint64_t ti, Result& R) {
